@@ -82,6 +82,8 @@ type respRun struct {
 	Variant  string       `json:"variant"`  // plain | debug (debug-level logger, answlog all, httptrace dump+trace)
 	Fatal    bool         `json:"fatal"`    // the documented fatal condition is being provoked
 	Mix      bool         `json:"mix"`
+	WallMs   int          `json:"wall_ms"` // informational
+	Retried  bool         `json:"retried"` // the run hit the driver's time limit once and was repeated alone
 }
 
 var httpStatus = []string{"s200", "s201", "s204", "s299", "s301", "s304", "s400", "s404", "s418", "s429", "s500", "s503", "s599"}
@@ -176,6 +178,10 @@ func repeat(l string, n int) []string {
 }
 
 const shots = 30
+
+// runLimit is the driver's own limit for one engine run (normal: 0.1 .. 5 s, tens of seconds when the machine is
+// overloaded).  A run that hits it is repeated once, alone; only a second hit is recorded as the run's result.
+const runLimit = 300 * time.Second
 
 func planAll(mixes int, rnd *rand.Rand, h2 bool) []respPlan {
 	var plans []respPlan
@@ -385,7 +391,9 @@ func runPlan(idx int, p respPlan, t *respTargets, root string) respRun {
 		InstanceStart: &monitoring.Counter{}, InstanceFinish: &monitoring.Counter{}}
 	conf.Engine.Pools[0].Aggregator = agg
 	eng := engine.New(log, m, conf.Engine)
-	res.RunErr = runEngineWith(eng, 120*time.Second)
+	t0 := time.Now()
+	res.RunErr = runEngineWith(eng, runLimit)
+	res.WallMs = int(time.Since(t0) / time.Millisecond)
 	res.Fired, res.Answered = int(m.Request.Get()), int(m.Response.Get())
 	res.Seen = int(seen() - seenBefore)
 	for _, s := range agg.Samples() {
@@ -469,6 +477,14 @@ func responsesMain(args []string) {
 	}
 	close(next)
 	wg.Wait()
+	for j := range results {
+		if strings.Contains(results[j].RunErr, "context deadline exceeded") && !results[j].Fatal {
+			t := newTargets(*h2)
+			results[j] = runPlan(j, plans[j], t, root)
+			results[j].Retried = true
+			t.close()
+		}
+	}
 	for j := range results {
 		w.Emit(results[j])
 	}
